@@ -187,6 +187,10 @@ class _TextCueParser:
     # the end tag closes the element that was open when the timestamp tag was met, not the timestamp span
     reopen_ts_span = self._close_ts_span()
 
+    if isinstance(self.parent, model.Rt) and _token.tag.strip().lower() == "ruby":
+      # the last </rt> of a ruby element may be omitted: </ruby> ends the ruby text too
+      self.parent = self.parent.parent().parent()
+
     if isinstance(self.parent, model.Ruby):
       self.ruby_rbc = None
       self.ruby_rtc = None
